@@ -27,7 +27,7 @@ def run(prog):
     out = []
     if not any(c.callee.name == "lit_implied" for c in te.calls):
         # the per-clause scan may have been extracted into a helper of the hasher
-        return helper_form(prog, fn) + [one_numbering(prog)]
+        return helper_form(prog, fn) + [one_numbering(prog)] + occurrence_index(prog)
 
     def site(name):
         cs = [c for c in te.calls if c.callee.name == name and "PartialModel" in c.callee.key()]
@@ -121,6 +121,7 @@ def run(prog):
     out.append(inst("HS", "%s:clause-product-accumulated" % fn.npath, verdict_of(errs), fn, None,
                     errtext(errs) if errs else "accumulator[i] *= clause product, for every clause that reaches the end of its literal loop"))
     out.append(one_numbering(prog))
+    out += occurrence_index(prog)
     out += own_hasher(prog)
     return out
 
@@ -202,11 +203,132 @@ def one_numbering(prog):
         w = strip(r[4][0])
         if not (mir.is_call(w, "collect") and mir.is_call(strip(w[2][0]), "map") and is_base(strip(w[2][0])[2][0])):
             errs.append("weighted_cnf is built from %s, not element by element from the clause list" % show(w)[:70])
-    if n < 3:
-        raise CheckerError("HS5: expected three enumerations of the clause list in CnfHasher::new, found %d" % n)
+    if n < 1:
+        raise CheckerError("HS5: expected enumerations of the clause list in CnfHasher::new, found %d" % n)
     return inst("HS", "%s:one-clause-numbering" % fn.npath, VIOLATION if errs else OK, fn, None,
                 "; ".join(errs) if errs else "state, pos_lits, neg_lits and weighted_cnf all number the constructor's clause list (%d enumerations)" % n)
 
+
+
+def occurrence_index(prog):
+    """HS7  the occurrence index of the hasher (pos_lits / neg_lits: literal -> clauses containing it) is either complete, or
+    used for nothing but striking clauses out of the unsatisfied-set.  Producer side: every place of CnfHasher::new that
+    records a clause index in a row (a `push` onto a row of the two tables, or the `Some(idx)` of a filter_map that builds a
+    row) is looked at with the branch facts that dominate it; tests that belong to the indexing itself — the loops, the
+    membership test `clause.contains(Literal::new(v, pol))`, the polarity that selects the table, the range test of
+    `get_mut`, a duplicate test against `last()` — are expected, any other test *excludes* clauses from the index.
+    Consumer side: a function of the crate that reads the tables and does something other than removing the listed
+    clauses from `state` (hands the row out, counts, inserts elsewhere) relies on the index being complete.  Each side alone
+    is fine (today the index is complete and `decide` only strikes out); an exclusion together with such a reader is
+    reported at the reader."""
+    H = "repr::cnf::CnfHasher"
+    fn = prog.find1(name="new", self_adt=H, unit="rsdd-lib")
+    fam = [fn] + [g for g in prog.lib_fns if g.npath.startswith(fn.npath + "::{closure")]
+    r = strip(fn.terms.ret)
+    out = []
+    if not (r[0] == "agg" and len(r) > 5 and r[5] and "pos_lits" in r[5] and "neg_lits" in r[5]):
+        return [inst("HS", "%s:HS7:index-complete" % fn.npath, UNDECIDED, fn, None, "? CnfHasher literal with pos_lits / neg_lits not found")]
+    fields = {n_: strip(o) for n_, o in zip(r[5], r[4]) if n_ in ("pos_lits", "neg_lits")}
+    tab_locals = {t[2] if t[0] == "mu" else t[1] for t in fields.values() if t[0] in ("mu", "local", "mutref")}
+    # closures that build the rows of the two tables (chain form)
+    row_closures = set()
+
+    def collect(t, depth=0):
+        if depth > 6:
+            return
+        for x in [strip(t)] + list(mir.subterms(t)):
+            if isinstance(x, tuple) and x and x[0] == "agg" and x[1] == "closure":
+                if x[2] not in row_closures:
+                    row_closures.add(x[2])
+                    for g in fam:
+                        if g.npath == x[2] and g.terms.ret is not None:
+                            collect(g.terms.ret, depth + 1)
+    for t in fields.values():
+        if t[0] not in ("mu", "local", "mutref"):
+            collect(t)
+    sites = []                                   # (fn, block, line, what)
+    for g in fam:
+        te = g.terms
+        for cs in te.calls:
+            if cs.callee.name == "push" and len(cs.args) == 2 and any(
+                    isinstance(x, tuple) and len(x) == 2 and x[0] in ("mutref", "local") and x[1] in tab_locals
+                    for x in [strip(cs.args[0])] + list(mir.subterms(cs.args[0]))) and g is fn:
+                # `tab.push(Vec::new())` sizes the table; an index is recorded by a push onto a *row*
+                if any(mir.is_call(x, "index_mut") or mir.is_call(x, "get_mut") or mir.is_call(x, "last_mut") or
+                       mir.is_call(x, "iter_mut") for x in mir.subterms(cs.args[0])):
+                    sites.append((g, cs.bb, cs.line, "push"))
+        if g.npath in row_closures and any(c.callee.name == "enumerate" for h in fam for c in h.terms.calls
+                                           if any(isinstance(a, tuple) and a and a[0] == "agg" and a[1] == "closure" and a[2] == g.npath
+                                                  for c2 in h.terms.calls if c2.callee.name == "filter_map" for a in c2.args)):
+            for b, t in te.ret_by_block.items():
+                for x in [strip(t)] + list(mir.subterms(t)):
+                    if isinstance(x, tuple) and x and x[0] == "agg" and x[3] == "Some":
+                        sites.append((g, b, None, "Some(idx)"))
+                        break
+    if not sites:
+        return [inst("HS", "%s:HS7:index-complete" % fn.npath, UNDECIDED, fn, None,
+                     "? no place that records a clause index in pos_lits / neg_lits was found")]
+
+    def expected(c):
+        c0 = strip(c)
+        while isinstance(c0, tuple) and c0 and c0[0] == "un" and c0[1] == "Not":
+            c0 = strip(c0[2])
+        sc = show(c0)
+        subs = [c0] + list(mir.subterms(c0))
+        if c0[0] == "discr" and any(mir.is_call(x, nm) for x in subs for nm in ("next", "get_mut", "get", "last")):
+            return True
+        if any(mir.is_call(x, "contains") for x in subs) and "Literal" in "".join(getattr(x[1], "key", lambda: "")() or "" for x in subs if x[0] == "call") + sc:
+            return True
+        if any(mir.is_call(x, "polarity") for x in subs):
+            return True
+        if any(mir.is_call(x, "last") for x in subs):
+            return True
+        if any(mir.is_call(x, "label") for x in subs) and c0[0] in ("bin", "call"):
+            return True
+        return False
+    excl = []
+    for g, b, line, what in sites:
+        for c, v, _, _ in g.terms.facts_at(b):
+            if not expected(c):
+                excl.append((show(strip(c))[:70], g, line))
+    texts = sorted({e[0] for e in excl})
+    out.append(inst("HS", "%s:HS7:index-complete" % fn.npath, OK, fn, None,
+                    ("%d recording sites; the index leaves clauses out on: %s — admissible only while every reader merely strikes "
+                     "listed clauses out of `state`" % (len(sites), "; ".join(texts))) if texts else
+                    "%d recording sites, each guarded only by the membership / polarity / range / duplicate tests of the indexing "
+                    "itself: every occurrence is recorded" % len(sites)))
+    # readers
+    nread = 0
+    for g in prog.lib_fns:
+        if g in fam or "::test" in g.npath or g.name.startswith("test") or not any(b_["term"]["k"] == "call" for b_ in g.blocks):
+            continue
+        if (g.impl_trait or "").split("<")[0].split("::")[-1] in ("PartialEq", "Eq", "Debug", "Clone", "Hash", "Serialize", "Deserialize", "Default"):
+            continue        # structural impls treat the tables as data
+        te = g.terms
+        reads = [cs for cs in te.calls if any(isinstance(x, tuple) and x and x[0] == "field" and x[2] in ("pos_lits", "neg_lits") and
+                                              str(x[3] if len(x) > 3 else "").endswith("CnfHasher")
+                                              for a in cs.args for x in [strip(a)] + list(mir.subterms(a)))]
+        if not reads:
+            continue
+        nread += 1
+        strikes = any(cs.callee.name == "remove" and any(isinstance(x, tuple) and x and x[0] == "field" and x[2] == "state"
+                                                         for x in mir.subterms(cs.args[0])) for cs in te.calls)
+        other = [cs.callee.name for cs in te.calls if cs.callee.name in ("insert", "push", "extend", "contains", "len", "count", "as_slice", "to_vec", "collect")]
+        unit = (g.locals[0]["s"] if g.locals else "") in ("()",)
+        only_strikes = strikes and unit and not other
+        key = "%s:HS7:index-use" % g.npath
+        if only_strikes or not texts:
+            out.append(inst("HS", key, OK, g, reads[0].line,
+                            "strikes the listed clauses out of `state` and nothing else" if only_strikes else
+                            "reads the occurrence index, which is complete"))
+        else:
+            out.append(inst("HS", key, VIOLATION, g, reads[0].line,
+                            "%s uses the occurrence index as *the* clauses in which a literal occurs (%s), but CnfHasher::new leaves "
+                            "clauses out of it on `%s`: whatever is computed from the rows misses those clauses"
+                            % (g.name, "returns / collects the row" if not strikes else "does more than striking out", "; ".join(texts))))
+    if nread == 0:
+        out.append(inst("HS", "%s:HS7:index-use" % H, UNDECIDED, None, None, "? no reader of pos_lits / neg_lits found"))
+    return out
 
 
 def helper_form(prog, hashfn):
